@@ -11,6 +11,12 @@ import (
 
 func init() {
 	register("C13", "status-silenced-and-inhibited", c13Status)
+	// C03: an inhibited alert is reported suppressed with its inhibiting alert; C02: the reported silence status equals
+	// the stored silences - also when both hold for one alert, and in the single cases
+	register("C03", "status-silenced-and-inhibited", c13Status)
+	register("C02", "status-silenced-and-inhibited", c13Status)
+	multiplicity["C03/status-silenced-and-inhibited"] = 3
+	multiplicity["C02/status-silenced-and-inhibited"] = 3
 	register("C13", "muted-by-names-the-current-interval", c13MutedBy)
 	multiplicity["C13/status-silenced-and-inhibited"] = 3
 	multiplicity["C13/muted-by-names-the-current-interval"] = 2
